@@ -137,10 +137,11 @@ def gen_stream(rnd, i):
     if rnd.random() < 0.12:
         # spurious readiness: a backlog above one booking (4096) is buffered while the reader is slow, then a thief empties the socket
         # between the poller's fetch and its read (the readv finds nothing: InputAck(0)), then more data arrives and everything is read
-        first = rnd.choice([4097, 5000, 6000])
-        peer = [['send', first], ['send', rnd.randint(1, 20)], ['send', rnd.randint(1, 40)], ['send', rnd.randint(1, 40)], ['close']]
+        # (bookSize stays 8192 while maxSize follows the backlog: two nodes of 8192 fill up, the third is larger than one booking)
+        k = rnd.randint(17, 20)
+        peer = [['sendsync', 1000] for _ in range(k)] + [['send', rnd.randint(1, 20)], ['send', rnd.randint(1, 40)], ['send', rnd.randint(1, 40)], ['close']]
         return {'kind': 'client', 'onconnect': False, 'ondisconnect': False, 'onrequest': False, 'onprepare': True, 'nclosecb': 1, 'handler': [],
-                'actors': [{'name': 'reader', 'ops': [['Yield'], ['Yield'], ['Yield'], ['Next', first], ['Next', -1], ['Yield'], ['Next', -1], ['Yield'], ['Next', -1], ['Yield'], ['Next', -1]]}],
+                'actors': [{'name': 'reader', 'ops': [['Next', 1000 * k - rnd.choice([0, 500])], ['Yield'], ['Next', -1], ['Yield'], ['Next', -1], ['Yield'], ['Next', -1], ['Yield'], ['Next', -1]]}],
                 'peer': peer, 'steals': rnd.randint(1, 2), 'focus': True}
     # C04 under the controlled scheduler: a reader goroutine mixing Next and Until against any chunking,
     # or a handler consuming piecemeal, with the peer closing after its last byte
@@ -244,7 +245,7 @@ def validate(sc, results, order, tag, module='TraceConn', deps=('ConnObs.tla',),
     out = p.stdout
     m = re.search(r'<<\s*"TRACE-RESULT",(.*?)>>\s*\n(?=Model checking|Finished|The|$)', out, re.S)
     if not m or 'Model checking completed. No error has been found' not in out:
-        raise vlib.Inconclusive('trace validation did not complete:\n' + out[-2500:])
+        raise vlib.Inconclusive('trace validation did not complete:\n' + '\n'.join(l for l in out.splitlines() if l.startswith('Error') or 'TLC threw' in l or 'Attempted' in l or 'overflow' in l)[:1500] + '\n' + out[-1200:])
     val = tlaval.parse('<<"TRACE-RESULT",' + m.group(1) + '>>')
     consumed, total, viol = val[1], val[2], val[3]
     if consumed != total or total != n:
